@@ -268,8 +268,13 @@ func c02SharingScenarios(tier string) []*Scenario {
 }
 
 func init() {
-	scenarioSets["C10"] = c10CancelScenarios
-	scenarioSets["C02"] = c02SharingScenarios
+	scenarioSets["C10"] = func(tier string) []*Scenario {
+		return append(c10CancelScenarios(tier), programScenarios("C10", c10Programs(tier), 1)...)
+	}
+	scenarioSets["C11"] = func(tier string) []*Scenario { return programScenarios("C11", c11Programs(tier), 1) }
+	scenarioSets["C02"] = func(tier string) []*Scenario {
+		return append(c02SharingScenarios(tier), programScenarios("C02", c02Programs(tier), 1)...)
+	}
 	register(&CheckDef{
 		Property:  "C10",
 		Technique: "exhaustive enumeration of fallback programs executed on the real code under the virtual runtime, checked against the fallback layer contract; plus schedule exploration of cancellation against the fallback's own listener",
